@@ -18,7 +18,11 @@
            spelling / blanks get the same answer
      (v)   stream:history-dependent             a fresh instance answers count/sat/core lines alike
      (vi)  stream:out-of-range-accepted         a count/sat/core line that is well-formed except for a
-           number outside -n..n must be answered by an error *)
+           number outside -n..n must be answered by an error
+     (vii) enumerate:cursor-shared-across-models   (detector, no finding line since the repair F21 of
+           finding K2) the paging state of this model moved because ANOTHER model of the process was
+           paged (block with `other_model`), or survived a clause-update / undo-update that replaced
+           the model (kind C13U, check_update below) *)
 open Blocks
 
 let unhex (h : string) : string =
@@ -235,15 +239,18 @@ let check (b : block) : verdict list =
     let out = ref [] in
     let nviol = ref 0 in
     let add v = (match v with Viol _ -> incr nviol | _ -> ()); if List.length !out < 40 then out := v :: !out in
-    if find b "cursor_poisoned" <> None then
-      add (Viol ("stream:panic", "the process-global enumeration cursor lock is poisoned by an earlier panic inside enumerate: every later enum request panics"));
-    (* a cursor left behind by ANOTHER model in the same process (finding K2) *)
-    let foreign = match find b "foreign_cursor" with Some (k :: _) -> Some (int_of_string k) | _ -> None in
-    let cur0 = match foreign with Some k -> [([], Conv.z_of_int k)] | None -> [] in
-    let panic_sig = if foreign <> None then "enumerate:cursor-shared-across-models" else "stream:panic" in
-    let st = ref { Mdl.StreamMsg.dd = Model.build c nn; sc = Model.fresh_scratch c; cur = cur0; cache = None } in
+    (* `other_model`: ANOTHER model of the same process is paged before and between the lines of this
+       block.  Since the repair F21 (finding K2) that must not matter: the model starts from its own
+       empty cursor like in every block, the answers are compared exactly and judged by the
+       truth-table rules like in every block; only the signature of what goes wrong differs
+       (a detector without a finding line: any occurrence is a violation). *)
+    let other = find b "other_model" <> None in
+    let panic_sig = if other then "enumerate:cursor-shared-across-models" else "stream:panic" in
+    let wrong_sig = if other then "enumerate:cursor-shared-across-models" else "stream:wrong-result" in
+    let st = ref { Mdl.StreamMsg.dd = Model.build c nn; sc = Model.fresh_scratch c; cur = []; cache = None } in
     let es = Array.of_list (entries b) in
     let seen : (string, string * string) Hashtbl.t = Hashtbl.create 64 in
+    let enum_cycles : (int list, (int, unit) Hashtbl.t) Hashtbl.t = Hashtbl.create 4 in
     (* cursor oracle: the answers of `enum l 1` probes must walk one fixed cycle *)
     let cycle : (string, string) Hashtbl.t = Hashtbl.create 16 in   (* answer -> next answer *)
     let last_probe = ref None and may_move = ref false in
@@ -305,28 +312,42 @@ let check (b : block) : verdict list =
                     | None -> Hashtbl.replace seen key (a, e.line))
                  | None ->
                    (match enum_parse n e.line with
-                    | Some (ma, lim) when Chk_ops.mca t [] > 0 && foreign = None ->
+                    | Some (ma, lim) when Chk_ops.mca t [] > 0 ->
                       (* the library call is enumerate(A, k), k = the limit, default min(#models, 1000) *)
                       bump "c13_enum_lines_decided_by_truth_table";
                       let k = match lim with Some k -> k | None -> min (Chk_ops.mca t []) 1000 in
                       let ca = Chk_ops.mca t ma in
                       if ca = 0 then begin
                         if not (is_err_text a) then
-                          add (Viol ("stream:wrong-result", Printf.sprintf "line [%s] answered {%s}: no configuration contains the assumptions, enumerate(A, %d) is None and the documented answer is the E5 error" show (String.escaped a) k))
+                          add (Viol (wrong_sig, Printf.sprintf "line [%s] answered {%s}: no configuration contains the assumptions, enumerate(A, %d) is None and the documented answer is the E5 error" show (String.escaped a) k))
                       end else begin
                         match (if is_err_text a then None else parse_cfgs a) with
-                        | None -> add (Viol ("stream:wrong-result", Printf.sprintf "line [%s] answered {%s}: %d configurations contain the assumptions" show (String.escaped a) ca))
+                        | None -> add (Viol (wrong_sig, Printf.sprintf "line [%s] answered {%s}: %d configurations contain the assumptions" show (String.escaped a) ca))
                         | Some cfgs ->
                           let mask c = List.fold_left (fun acc l -> if l > 0 then acc lor (1 lsl (l - 1)) else acc) 0 c in
                           let complete c = List.sort compare (List.map abs c) = List.init n (fun i -> i + 1) in
                           let bad = List.filter (fun c -> not (complete c && List.mem (mask c) t && List.for_all (fun l -> List.mem l c) ma)) cfgs in
                           let cnt = List.length cfgs in
                           if bad <> [] then
-                            add (Viol ("stream:wrong-result", Printf.sprintf "line [%s] answered {%s}: not every entry is a complete valid configuration containing the assumptions" show (String.escaped a)))
+                            add (Viol (wrong_sig, Printf.sprintf "line [%s] answered {%s}: not every entry is a complete valid configuration containing the assumptions" show (String.escaped a)))
                           else if List.length (List.sort_uniq compare cfgs) <> cnt then
-                            add (Viol ("stream:wrong-result", Printf.sprintf "line [%s] answered {%s}: a configuration is listed twice in one page" show (String.escaped a)))
+                            add (Viol (wrong_sig, Printf.sprintf "line [%s] answered {%s}: a configuration is listed twice in one page" show (String.escaped a)))
                           else if cnt < 1 || cnt > min k ca then
-                            add (Viol ("stream:wrong-result", Printf.sprintf "line [%s] answered %d configurations; enumerate(A, %d) with %d matching configurations returns between 1 and %d" show cnt k ca (min k ca)))
+                            add (Viol (wrong_sig, Printf.sprintf "line [%s] answered %d configurations; enumerate(A, %d) with %d matching configurations returns between 1 and %d" show cnt k ca (min k ca)))
+                          else if other then begin
+                            (* this block's lines are enum lines only: the full cycle rule of C06 *)
+                            let key = List.sort_uniq compare ma in
+                            let seen_cfgs = match Hashtbl.find_opt enum_cycles key with
+                              | Some h -> h | None -> let h = Hashtbl.create 8 in Hashtbl.replace enum_cycles key h; h in
+                            let remaining = ca - Hashtbl.length seen_cfgs in
+                            if cnt <> min k remaining then
+                              add (Viol (wrong_sig, Printf.sprintf "line [%s] answered %d configurations {%s}; %d of the %d matching configurations were not yet returned in this cycle of THIS model" show cnt (String.escaped a) remaining ca));
+                            List.iter (fun c ->
+                                if Hashtbl.mem seen_cfgs (mask c) then
+                                  add (Viol (wrong_sig, Printf.sprintf "line [%s] answered {%s}: a configuration already returned in this cycle of THIS model" show (String.escaped a)))
+                                else Hashtbl.replace seen_cfgs (mask c) ()) cfgs;
+                            if Hashtbl.length seen_cfgs >= ca then Hashtbl.reset seen_cfgs
+                          end
                       end
                     | _ -> ()))
               | None -> ());
@@ -379,4 +400,137 @@ let check (b : block) : verdict list =
     if !nviol > 40 then bump_by "c13_violations_not_listed" (!nviol - 40);
     if !out = [] then [Ok] else List.rev !out
 
-let kinds = [ "C13", check ]
+(* ---------------- C13U: enum across clause-update / undo-update on a CNF-loaded model -------------
+   MODEL: handle_full (V1) threaded through the history with a clause-cache stand-in whose update /
+   undo answer what the implementation did: accepted (answer "") -> the node vector the harness
+   dumped after the line (NC), refused -> unchanged.  Everything else is the model's own: in
+   particular that an accepted update / undo EMPTIES the cursor (exec, repair F21) - a model that
+   kept the cursor would answer the enum lines after an update differently (DIFF).
+   ORACLE (truth table T of the clause set the session is at, maintained by the harness):
+     no line panics; `count` answers |T|; the pages of the enum lines walk the cycle of their
+     assumption set in T (C06: min(k, not yet returned) complete distinct models containing A, E5
+     iff none), and the cycle starts again after every accepted update / undo.
+   Signature of an enum defect after an update: enumerate:cursor-shared-across-models (the cursor
+   of the replaced model is still in use; the C13 line of finding K2, repaired by F21: a detector,
+   any occurrence is a violation); before any update: stream:wrong-result. *)
+let parse_nc (toks : string list) : (int * Model.ntype list) option =
+  match toks with
+  | n :: rest -> (try Some (int_of_string n, List.map parse_node (Chk_ops.split_on ";" rest)) with _ -> None)
+  | [] -> None
+
+let check_update (b : block) : verdict list =
+  match impl b "panic" with
+  | Some msg -> [Viol ("load:panic", "loading panicked: " ^ String.concat " " msg)]
+  | None ->
+    let n = Chk_c01.int_n b in
+    let nn = Conv.nat_of_int n in
+    let dbg = (find b "profile" = Some ["debug"]) in
+    let out = ref [] in
+    let add v = if List.length !out < 20 then out := v :: !out in
+    (* records: line, answer, table after, circuit after *)
+    let recs =
+      let rec go acc cur = function
+        | [] -> List.rev (match cur with Some c -> c :: acc | None -> acc)
+        | ("L", [_; h]) :: r ->
+          let acc = match cur with Some c -> c :: acc | None -> acc in
+          go acc (Some (unhex h, None, "", None, None)) r
+        | ("R", [h]) :: r -> go acc (Option.map (fun (l, _, p, t, c) -> (l, Some (unhex h), p, t, c)) cur) r
+        | ("P", m) :: r -> go acc (Option.map (fun (l, _, _, t, c) -> (l, None, String.concat " " m, t, c)) cur) r
+        | ("T", ms) :: r when cur <> None -> go acc (Option.map (fun (l, a, p, _, c) -> (l, a, p, Some (List.map int_of_string ms), c)) cur) r
+        | ("NC", toks) :: r -> go acc (Option.map (fun (l, a, p, t, _) -> (l, a, p, t, parse_nc toks)) cur) r
+        | _ :: r -> go acc cur r in
+      go [] None b.lines in
+    let tbl0 = match List.find_opt (fun (k, _) -> k = "T") b.lines with Some (_, ms) -> List.map int_of_string ms | None -> [] in
+    let tbl = ref tbl0 in
+    let st = ref { Mdl.StreamMsg.dd = Model.build b.circuit nn; sc = Model.fresh_scratch b.circuit; cur = []; cache = Some () } in
+    let cycles : (int list, (int, unit) Hashtbl.t) Hashtbl.t = Hashtbl.create 4 in
+    let updated = ref false in
+    List.iter (fun (line, ans, pmsg, t_after, nc) ->
+        let show = String.escaped line in
+        let accepted = (ans = Some "") in
+        (* ---- model *)
+        let next () = match nc with
+          | Some (n', c') -> (Model.build c' (Conv.nat_of_int n'), Model.fresh_scratch c')
+          | None -> (!st.Mdl.StreamMsg.dd, !st.Mdl.StreamMsg.sc) in
+        let x = { Mdl.StreamMsg.x_conflicting = (fun _ _ -> Mdl.StreamMsg.AOk false);
+                  x_atomic = (fun _ _ _ _ s -> Mdl.StreamMsg.AOk (s, Conv.coq_string ""));
+                  x_twise = (fun _ _ _ s -> Mdl.StreamMsg.AOk (s, Conv.coq_string ""));
+                  x_update = (fun d cc _ _ _ s ->
+                      if accepted then (let (d', s') = next () in Mdl.StreamMsg.AOk (((d', s'), cc), true))
+                      else Mdl.StreamMsg.AOk (((d, s), cc), false));
+                  x_undo = (fun d cc s ->
+                      if accepted then (let (d', s') = next () in Mdl.StreamMsg.AOk (((d', s'), cc), true))
+                      else Mdl.StreamMsg.AOk (((d, s), cc), false));
+                  x_save_ddnnf = (fun _ _ -> Mdl.StreamMsg.AOk None);
+                  x_save_cnf = (fun _ _ _ -> Mdl.StreamMsg.AOk None) } in
+        let ((st', mo), _) = Mdl.StreamMsg.handle_full x Mdl.StreamMsg.V1 dbg !st (Conv.coq_string line) [] in
+        st := st';
+        bump "c13u_lines";
+        (match mo, ans with
+         | Mdl.StreamMsg.SPanic _, None -> ()
+         | Mdl.StreamMsg.SPanic site, Some a ->
+           add (Diff ("panic-model-only", Printf.sprintf "[%s] model panics at %s, implementation answered %s" show (Conv.ocaml_string site) (String.escaped a)))
+         | _, None -> ()
+         | Mdl.StreamMsg.SOk s, Some a ->
+           let s = Conv.ocaml_string s in
+           if s <> a then add (Diff ("result", Printf.sprintf "[%s] model {%s} impl {%s}" show (String.escaped s) (String.escaped a)))
+         | Mdl.StreamMsg.SErr (_, t), Some a ->
+           let t = Conv.ocaml_string t in
+           if t <> a then add (Diff ("error", Printf.sprintf "[%s] model {%s} impl {%s}" show (String.escaped t) (String.escaped a))));
+        (* ---- oracle *)
+        let first = first_tok line in
+        let sg = if !updated then "enumerate:cursor-shared-across-models" else "stream:wrong-result" in
+        (match ans with
+         | None ->
+           add (Viol ((if first = "enum" && !updated then "enumerate:cursor-shared-across-models" else "stream:panic"),
+                      Printf.sprintf "line [%s] panicked: %s%s" show pmsg
+                        (if !updated then " (after an accepted update of the model in this session)" else "")))
+         | Some a ->
+           if first = "count" && line = "count" then begin
+             if a <> string_of_int (List.length !tbl) then
+               add (Diff ("c13u-table", Printf.sprintf "[count] answered %s, the clause set the harness tracks has %d models (C12's business)" a (List.length !tbl)))
+           end else if first = "enum" then begin
+             match enum_parse n line with
+             | None -> ()
+             | Some (ma, lim) ->
+               bump "c13u_enum_lines_decided_by_truth_table";
+               let t = !tbl in
+               let k = match lim with Some k -> k | None -> min (List.length t) 1000 in
+               let ta = List.filter (fun m -> List.for_all (Chk_ops.holds m) ma) t in
+               let ca = List.length ta in
+               if ca = 0 then begin
+                 if not (is_err_text a) then add (Viol (sg, Printf.sprintf "line [%s] answered {%s}: no configuration contains the assumptions" show (String.escaped a)))
+               end else begin
+                 match (if is_err_text a then None else if a = "" then Some [] else parse_cfgs a) with
+                 | None -> add (Viol (sg, Printf.sprintf "line [%s] answered {%s}: %d configurations contain the assumptions" show (String.escaped a) ca))
+                 | Some cfgs ->
+                   let mask c = List.fold_left (fun acc l -> if l > 0 then acc lor (1 lsl (l - 1)) else acc) 0 c in
+                   let complete c = List.sort compare (List.map abs c) = List.init n (fun i -> i + 1) in
+                   let key = List.sort_uniq compare ma in
+                   let seen = match Hashtbl.find_opt cycles key with
+                     | Some h -> h | None -> let h = Hashtbl.create 8 in Hashtbl.replace cycles key h; h in
+                   let remaining = ca - Hashtbl.length seen in
+                   if List.length cfgs <> min k remaining then
+                     add (Viol (sg, Printf.sprintf "line [%s] answered %d configurations {%s}; enumerate(A, %d): %d of the %d matching configurations were not yet returned in this cycle%s"
+                                  show (List.length cfgs) (String.escaped a) k remaining ca
+                                  (if !updated then " (the cycle starts again when an update replaces the model)" else "")));
+                   List.iter (fun c ->
+                       if not (complete c && List.mem (mask c) ta) then
+                         add (Viol (sg, Printf.sprintf "line [%s] answered {%s}: [%s] is not a complete configuration of the CURRENT clause set containing the assumptions" show (String.escaped a) (String.concat " " (List.map string_of_int c))))
+                       else if Hashtbl.mem seen (mask c) then
+                         add (Viol (sg, Printf.sprintf "line [%s] answered {%s}: [%s] was already returned in this cycle" show (String.escaped a) (String.concat " " (List.map string_of_int c))))
+                       else Hashtbl.replace seen (mask c) ()) cfgs;
+                   if Hashtbl.length seen >= ca then Hashtbl.reset seen
+               end
+           end);
+        (* ---- the state the session is at after the line *)
+        if accepted && (first = "clause-update" || first = "undo-update") then begin
+          updated := true; Hashtbl.reset cycles; bump "c13u_accepted_updates"
+        end;
+        (match t_after with Some t -> tbl := t | None -> ())) recs;
+    (match find b "clean" with
+     | Some ["0"] -> add (Diff ("clean", "the implementation's markers/md are not reset at the end of the block"))
+     | _ -> ());
+    if !out = [] then [Ok] else List.rev !out
+
+let kinds = [ "C13", check; "C13U", check_update ]
